@@ -532,6 +532,34 @@ Theorem shared_cache_view_is_byte_lookup : forall key (U : row -> Prop),
 Proof. exact byte_view_is_tagged_view. Qed.
 Print Assumptions shared_cache_view_is_byte_lookup.
 
+(* ROUND 8, which node stores what (controller/middleware.go withTSAndSampleService, repaired this round). A push whose samples
+   service, time_series service and cache view belong to ONE node is exactly the product model's Push on that node (for every
+   prefix, state, body and outcomes, seen from every node m); the repaired middleware (choose_one_node: the node of the first
+   lookup is used for the other two) hands doParse one node for EVERY header value and EVERY draw of the registry - so each
+   such push is a step of the histories the theorems above quantify over. *)
+Theorem push_on_one_node_is_a_step_of_the_product_model : forall pfx ms ss ts_ok spl_ok,
+  (forall n m, nview pfx (split_push pfx ms n n n ss ts_ok spl_ok) m
+               = nview pfx (fst (mstep pfx ms (MAct n (Push ss ts_ok spl_ok)))) m) /\
+  (forall dsn d1 d2 d3, exists n, choose_one_node dsn d1 d2 d3 = (n, n, n)) /\
+  (forall dsn d1 d2 d3, exists n, forall m,
+     nview pfx (choice_push pfx choose_one_node ms dsn d1 d2 d3 ss ts_ok spl_ok) m
+     = nview pfx (fst (mstep pfx ms (MAct n (Push ss ts_ok spl_ok)))) m).
+Proof.
+  exact (fun pfx ms ss a b => conj (fun n m => split_push_one_node pfx ms n ss a b m)
+    (conj choose_one_node_is_one_node (fun dsn d1 d2 d3 => choice_push_is_model_step pfx ms dsn d1 d2 d3 ss a b))).
+Qed.
+Print Assumptions push_on_one_node_is_a_step_of_the_product_model.
+
+(* before the repair (three independent draws for a push without X-CH-DSN): draws ch1 / ch2 / ch1 - the sample is acknowledged
+   on ch1, its series row is in ch2's table, ch1 has none (replayed on the real code: findings.d/C04.txt node-drawn-per-service) *)
+Theorem acked_sample_is_indexed_on_its_node_refuted_before_fix_without_dsn :
+  let ms := choice_push n_node choose_before_fix minit None ex_ch1 ex_ch2 ex_ch1 [ex_stream] true true in
+  all_indexed_typed (nview n_node ms ex_ch1) = false /\
+  acked (nview n_node ms ex_ch1) = [(7, 19675, 1)] /\ ts_rows (nview n_node ms ex_ch1) = [] /\
+  ts_rows (nview n_node ms ex_ch2) = [(19675, 7, 1)].
+Proof. exact choose_before_fix_loses_row. Qed.
+Print Assumptions acked_sample_is_indexed_on_its_node_refuted_before_fix_without_dsn.
+
 (* ... and it is what makes the triple-keyed cache of SeriesIndex.v the right abstraction: for every
    key hash and serializer whose composition is injective on announcements (the hash part is a
    collision-freeness hypothesis on CH64, not established), the parser that reads the byte-keyed cache
